@@ -33,6 +33,14 @@ CLAIMED["C10"] = dict(
     technique="Lean 4 theorems (read table, lifecycle transitions, frame for other observers; all states) + differential correspondence + Lean lifecycle predicate on the implementation's answers",
     text="Kernel-checked for EVERY model state: the complete read table by lifecycle state; disallow_future_use never panics, moves created→unlinked / inUse→disallowed, is idempotent and leaves every other observer's record and read unchanged; subscribe fails with Disallowed on ended observers and succeeds otherwise; unsubscribe with a foreign token is Mismatch with the state unchanged; none of the calls changes another observer's lifecycle state. The created→inUse and disallowed→unlinked transitions inside stabilise and the clone counting of the public handle are covered by correspondence (profile life) and holds_C10, not yet by theorems.",
     note=ENGINE_NOTE, ref="DESIGN.md §6 C10")
+CLAIMED["C11"] = dict(
+    technique="Lean 4 invariant proof (Hoare triples over the whole engine model, mvcgen) for the recompute-heap conjunct + snapshot-level differential correspondence after every action + representation audit hook",
+    text="Kernel-checked: HeapWF (bucket membership agrees with every node's marker, no duplicates, length = sum of buckets, markers in range) holds initially and is preserved — on normal return AND on panic — by every function of the engine model up to stabilise (for the cascade-entering functions under cfg.debug, with a checked counterexample showing why release builds need the additional conjunct queued⇒necessary). The other conjuncts of the property (edge symmetry, heights, necessity, counters) are not yet theorems: they are checked on every run by comparing the model's complete snapshot with verif_snapshot() after EVERY action (heights, timestamps, validity, necessity, ordered parent lists with child indices, children, handler counts, heap buckets in order, counters) and by verif_audit() on the real representation (index arrays position by position, heap markers, handler counts, stats().necessary).",
+    note=ENGINE_NOTE, ref="DESIGN.md §6 C11")
+CLAIMED["C19"] = dict(
+    technique="Lean 4 theorems (closed-form run equations of set_height / set_max_height_allowed / link for all states) + differential correspondence on a limits+misuse generator in both build profiles + Lean predicate for exactness on static graphs",
+    text="Kernel-checked for EVERY model state: a heap for limit N has N+1 buckets; set_height panics with the height diagnostic iff the height exceeds the limit (given max_height_seen ≤ limit), set_max_height_allowed succeeds iff not stabilising and N ≥ max_height_seen (and leaves N+1 buckets in both heaps), after which heights are accepted iff ≤ N; link succeeds iff 0 ≤ height ≤ limit. Tied to /repo by the limits generator (N in 1..12, chains/binds around N, grow/shrink at quiescent points, cycles through one and two binds, nested stabilise from function and handler, drop of everything afterwards) in debug and release, with holds_C19 computing the needed height of static graphs independently. Termination of adjust_heights (no hang) is observed (every run terminates under a timeout), not yet a theorem.",
+    note=ENGINE_NOTE, ref="DESIGN.md §6 C19")
 ALL = ["C%02d" % i for i in range(1, 21)]
 NOT_YET = "no check registered at this commit: the model component for this property is still under construction (see DESIGN.md §9 order of work); nothing is claimed"
 
